@@ -1,4 +1,182 @@
-(* C17 -- stub while the harness is brought up *)
-From PV Require Import C17.Spec C17.Proofs.
-Theorem C17_stub : True. Proof. exact placeholder_true. Qed.
-Print Assumptions C17_stub.
+(* C17 -- the C extension is memory-safe and decodes OS records faithfully.
+   Statements only; proofs live in C17/Proofs*.v.  Model: C17/Model.v (transcription of the
+   decoding logic and of the index / integer arithmetic of psutil's C sources and of the
+   Python code around it), specification: C17/Spec.v.  What these theorems cannot say --
+   anything about the compiled code itself -- is delegated to the sanitizer runs of
+   props/C17.py.  [fixed] = false is the code as it is, true the proposed repair. *)
+From PV Require Import C17.Spec C17.Proofs C17.ProofsMnt.
+
+(* ---------------------------------------------------------------- users() *)
+(* every file of well-formed login records, fields cut at their width (repaired code):
+   user, terminal, host (':0' / ':0.0' as localhost), start time and PID of exactly the
+   USER_PROCESS records *)
+Theorem C17_users_decode_fixed : forall rs,
+  forallb wf_urec rs = true -> users true (k_utmp_file rs) = MOk (spec_users rs).
+Proof. exact users_decode_fixed. Qed.
+Print Assumptions C17_users_decode_fixed.
+
+(* the code as it is gives the same answer when no string field of a USER_PROCESS record
+   fills its whole width *)
+Theorem C17_users_decode : forall rs,
+  forallb wf_urec rs = true -> forallb terminated rs = true ->
+  users false (k_utmp_file rs) = MOk (spec_users rs).
+Proof. exact users_decode_asis. Qed.
+Print Assumptions C17_users_decode.
+
+(* known finding: a full-width field is read across the field border ... *)
+Theorem C17_users_fullwidth_refuted : exists rs,
+  forallb wf_urec rs = true /\
+  exists rows, users false (k_utmp_file rs) = MOk rows /\ rows <> spec_users rs /\
+               map u_user rows = [repeat 85 32 ++ bs "example.org"].
+Proof. exact users_fullwidth_refuted. Qed.
+Print Assumptions C17_users_fullwidth_refuted.
+
+(* ... and, with no NUL in the rest of the record, past the end of the record *)
+Theorem C17_users_oob_refuted : exists rs,
+  forallb wf_urec rs = true /\ users false (k_utmp_file rs) = MOutOfBounds.
+Proof. exact users_oob_refuted. Qed.
+Print Assumptions C17_users_oob_refuted.
+
+(* ---------------------------------------------------------------- buffers *)
+(* PSUTIL_STRNCPY(dst, src, n), n >= 1: every write index is < n, for every source string,
+   and dst holds a terminated string afterwards whatever it held before *)
+Theorem C17_strncpy_in_bounds : forall src n, (1 <= n)%nat ->
+  exists ws, psutil_strncpy src n = Some ws /\ in_bounds n ws /\
+  forall junk, length junk = n ->
+    exists s, c_str (apply_writes junk ws) = Some s /\ (length s < n)%nat.
+Proof. exact strncpy_safe. Qed.
+Print Assumptions C17_strncpy_in_bounds.
+
+(* MAC formatting: for every hardware address of 1..255 bytes all writes stay inside buf[NI_MAXHOST] *)
+Theorem C17_mac_in_bounds : forall data,
+  (1 <= length data <= 255)%nat -> in_bounds NI_MAXHOST (mac_writes data).
+Proof. exact mac_in_bounds. Qed.
+Print Assumptions C17_mac_in_bounds.
+
+(* ---------------------------------------------------------------- CPU sets *)
+(* CPU_SET on any C long: the bit touched is < 1024 (the size of cpu_set_t), or nothing is touched *)
+Theorem C17_cpu_set_safe : forall value c, cpu_set_touch value = Some c -> 0 <= c < 1024.
+Proof. exact cpu_set_touch_bound. Qed.
+Print Assumptions C17_cpu_set_safe.
+
+(* the cpu_set sizing loop: whatever the kernel answers, it ends within 25 rounds with a
+   size that fits an int or with OverflowError; ncpus * 2 never overflows *)
+Theorem C17_getaffinity_terminates : forall kernel_ok : Z -> bool,
+  (exists n, aff_loop 25 kernel_ok 64 = AffOk n /\ 0 < n <= INT_MAX)
+  \/ aff_loop 25 kernel_ok 64 = AffOverflowError.
+Proof. exact getaffinity_terminates. Qed.
+Print Assumptions C17_getaffinity_terminates.
+
+(* the read-out loop returns exactly the set bits and never indexes past the mask *)
+Theorem C17_affinity_readout : forall bits, aff_scan bits 0 (popcount bits) = Some (set_bits 0 bits).
+Proof. exact affinity_readout. Qed.
+Print Assumptions C17_affinity_readout.
+
+(* ---------------------------------------------------------------- integers *)
+(* check_pid_range for every Python int: None, OverflowError or ValueError, by range *)
+Theorem C17_pid_range : forall z,
+  check_pid_range (PInt z) =
+    if (z <? INT_MIN) || (z >? INT_MAX) then Exc OverflowError
+    else if z <? 0 then Exc ValueError else Val tt.
+Proof. exact check_pid_range_int. Qed.
+Print Assumptions C17_pid_range.
+
+(* ... and for every Python object nothing but these and TypeError *)
+Theorem C17_pid_range_total : forall v,
+  check_pid_range v = Val tt \/ check_pid_range v = Exc OverflowError
+  \/ check_pid_range v = Exc ValueError \/ check_pid_range v = Exc TypeError.
+Proof. exact check_pid_range_total. Qed.
+Print Assumptions C17_pid_range_total.
+
+(* every entry point, every argument tuple: undefined behaviour arises in the model only in
+   proc_ioprio_set with an ioclass outside [0, 2^18) *)
+Theorem C17_entry_points_defined : forall ep args w, c_entry ep args = CUB w ->
+  ep = EpIoprioSet /\ exists p c d cz, args = [p; c; d] /\ conv_i c = Val cz /\ ~ (0 <= cz < 2 ^ 18).
+Proof. exact entry_ub_only_ioprio. Qed.
+Print Assumptions C17_entry_points_defined.
+
+(* 'ioclass << 13' is defined exactly for 0 <= ioclass < 2^18 *)
+Theorem C17_ioprio_shift : forall c d, ioprio_value c d = None <-> ~ (0 <= c < 2 ^ 18).
+Proof. exact ioprio_value_none. Qed.
+Print Assumptions C17_ioprio_shift.
+
+(* known finding: the Python layer lets such an ioclass through *)
+Theorem C17_ionice_refuted : exists ioclass value,
+  0 <= value <= 7 /\ ionice_set false 0 ioclass value = CUB "shift".
+Proof. exact ionice_refuted. Qed.
+Print Assumptions C17_ionice_refuted.
+
+(* with the proposed range check no call of ionice() reaches the shift undefined *)
+Theorem C17_ionice_fixed : forall pid ioclass value, is_ub (ionice_set true pid ioclass value) = false.
+Proof. exact ionice_fixed_no_ub. Qed.
+Print Assumptions C17_ionice_fixed.
+
+(* ethtool speed: defined for speed_hi < 0x8000, and in [0, INT_MAX] *)
+Theorem C17_nic_speed : forall hi lo, 0 <= hi < 2 ^ 15 ->
+  exists v, nic_speed false hi lo = Some v /\ 0 <= v <= INT_MAX.
+Proof. exact nic_speed_defined. Qed.
+Print Assumptions C17_nic_speed.
+
+(* known finding: SPEED_UNKNOWN (speed_hi = 0xFFFF) overflows 'speed_hi << 16' *)
+Theorem C17_nic_speed_refuted :
+  exists hi lo, 0 <= hi < 2 ^ 16 /\ 0 <= lo < 2 ^ 16 /\ nic_speed false hi lo = None.
+Proof. exact nic_speed_refuted. Qed.
+Print Assumptions C17_nic_speed_refuted.
+
+Theorem C17_nic_speed_fixed : forall hi lo, exists v, nic_speed true hi lo = Some v /\ 0 <= v <= INT_MAX.
+Proof. exact nic_speed_fixed. Qed.
+Print Assumptions C17_nic_speed_fixed.
+
+(* ---------------------------------------------------------------- interface flags *)
+Theorem C17_net_if_flags : forall flags i name, 0 <= flags -> In (i, name) spec_iff ->
+  (In name (net_if_flags flags) <-> Z.testbit flags i = true).
+Proof. exact net_if_flags_exact. Qed.
+Print Assumptions C17_net_if_flags.
+
+(* ---------------------------------------------------------------- mount table *)
+(* glibc's decode_name undoes the kernel's octal escapes, for every byte string *)
+Theorem C17_mntent_roundtrip : forall s, decode_name (mangle s) = s.
+Proof. exact decode_mangle. Qed.
+Print Assumptions C17_mntent_roundtrip.
+
+(* every mounts file printed from well-formed entries whose lines fit glibc's 4096-byte buffer:
+   getmntent() delivers exactly the entries (device, mount point, type, options) *)
+Theorem C17_getmntent_exact : forall es,
+  forallb wf_ment es = true -> forallb short_line es = true -> getmntent_all (k_mounts es) = Val es.
+Proof. exact getmntent_exact. Qed.
+Print Assumptions C17_getmntent_exact.
+
+(* the loop of disk_partitions(): device 'none' shown as '', and without all=True only entries with a
+   device and a disk-backed type -- for any set of types that agrees with the kernel's list.
+   PARTIAL: the full statement
+     forall fs es, forallb wf_fs fs = true -> ... -> disk_partitions fixed false (k_filesystems fs) (k_mounts es)
+                   = Val (spec_partitions false fs es)
+   needs the lemma  mem_bytes t (read_fstypes (k_filesystems fs)) = disk_backed fs t  (parsing of
+   /proc/filesystems), which is not proved; that step is covered by the correspondence run only. *)
+Theorem C17_partitions_filter_partial : forall all fstypes fs es,
+  (forall t, mem_bytes t fstypes = disk_backed fs t) -> forallb plain_dev es = true ->
+  partitions_loop all fstypes es = Val (spec_partitions all fs es).
+Proof. exact partitions_loop_exact. Qed.
+Print Assumptions C17_partitions_filter_partial.
+
+(* disk_partitions(all=True) end to end: every entry, with device, mount point, type and options *)
+Theorem C17_partitions_all : forall fixed fsb es,
+  forallb wf_ment es = true -> forallb short_line es = true -> forallb plain_dev es = true ->
+  (fixed = true \/ forallb utf8_ok es = true) ->
+  disk_partitions fixed true fsb (k_mounts es) = Val (spec_partitions true [] es).
+Proof. exact disk_partitions_all. Qed.
+Print Assumptions C17_partitions_all.
+
+(* known finding: a line longer than 4095 bytes comes back cut (type and options empty) *)
+Theorem C17_mounts_longline_refuted : exists es,
+  forallb wf_ment es = true /\ forallb plain_dev es = true /\ forallb utf8_ok es = true /\
+  exists rows, disk_partitions false true [] (k_mounts es) = Val rows /\ map m_type rows = [[]].
+Proof. exact mounts_longline_refuted. Qed.
+Print Assumptions C17_mounts_longline_refuted.
+
+(* known finding: one non-UTF-8 byte in type/options makes the whole call raise *)
+Theorem C17_mounts_nonutf8_refuted : exists es,
+  forallb wf_ment es = true /\ forallb plain_dev es = true /\ forallb short_line es = true /\
+  disk_partitions false true [] (k_mounts es) = Exc UnicodeError.
+Proof. exact mounts_nonutf8_refuted. Qed.
+Print Assumptions C17_mounts_nonutf8_refuted.
